@@ -248,7 +248,12 @@ func evaluate(col *vc.Collector, c *Config, res result) {
 		}
 		bad := func(why string) {
 			if approvedBeforeHello && why == "not-both-complete" {
+				// the recorded finding is exactly this: the outstanding hello is rejected in the protocol
+				// phase and both sides end; any other outcome (e.g. both sides hanging) is a different failure
 				why = "approved-with-peer-hello-outstanding"
+				if !strings.HasPrefix(class, "both-ended(S.complete=false,C.complete=false)") {
+					why += ":" + strings.SplitN(class, "(", 2)[0]
+				}
 			}
 			col.Violation("C03", "timely:"+want+":"+why, fmt.Sprintf("expected %s, observed %s", want, class), c.ID, wit())
 		}
